@@ -187,12 +187,14 @@ def e2e_dist(rs):
         d["pool_on"] += hd[2] == "1"
         d["tls"] += hd[3] == "1"
         d["buffer"][hd[1]] = d["buffer"].get(hd[1], 0) + 1
+        d["over_real_tcp_sockets"] = d.get("over_real_tcp_sockets", 0) + (hd[1] == "tcp")
         origins, rounds = set(), set()
         for q in parts[1:]:
             if len(q) != 15:
                 continue
             d["requests"] += 1
             d["http2_requests" if q[1] == "2" else "http1_requests"] += 1
+            d["http10_requests"] = d.get("http10_requests", 0) + (q[1] == "10")
             d["upgrades"] = d.get("upgrades", 0) + (q[3] == "W")
             d["caller_supplied_host"] = d.get("caller_supplied_host", 0) + q[3].endswith("h")
             d["root_path"] = d.get("root_path", 0) + (q[4] == "root")
@@ -372,15 +374,47 @@ POOL_RULE = ("random schedules (6-34 ops + drain/probe phase) of issue / poll / 
              "every op the result, the pool snapshot (marker set, waiter queues, idle lists), dial and drop counters are compared with "
              "the model and the monitors run. non-trivial = >=2 requests and at least one release or cancel before the drain phase")
 POOL_ASSUMES = ["tokio oneshot semantics (5-state model) and FIFO task scheduling of the current-thread runtime",
-                "one op = one poll/drop executed atomically (every PoolInner access is under its mutex)",
-                "hyper's is_ready/poll_ready abstracted as open && !busy; an upgraded connection is one that never becomes ready again",
+                "one op = one poll/drop executed atomically (every PoolInner access is under its mutex); real thread interleavings only in the poolmt stream, judged by the specification alone",
+                "hyper's is_ready/poll_ready abstracted as open && !busy (the equality is_open = poll_ready-is-Ok is checked on the real HttpConnection by the conn stream); an upgraded connection is one that never becomes ready again",
                 "idle expiry uses the real clock: timed cases use 50 ms (or sub-millisecond) timeouts with 5/150 ms sleeps (guard band); every run "
                 "includes the grid of idle lists of 1-3 connections (k oldest expired x any subset closed by the peer, 80 cases; a full list under a small limit expiring as a whole before further releases, 11 cases)"]
 
-def pool_prop(mod, prefixes, theorems, timed=False):
+def poolmt_dist(rs):
+    d = {"cases": len(rs), "requests_resolved": 0, "requests_dropped_by_caller": 0, "worker_threads": {}}
+    for r in rs:
+        t = r["input"].split()
+        d["worker_threads"][t[2]] = d["worker_threads"].get(t[2], 0) + 1
+        for kv in r["obs"].split():
+            k, _, v = kv.partition("=")
+            if k == "done": d["requests_resolved"] += int(v)
+            if k == "dropped": d["requests_dropped_by_caller"] += int(v)
+    return d
+
+POOLMT_STREAM = {"name": "poolmt", "quick": 120, "thorough": 6000, "head": 6, "unit": 1, "batch": 2000, "nondeterministic": True,
+                 "nontrivial": lambda r: True, "distribution": poolmt_dist}
+POOLMT_RULE = (" | poolmt: the same service on a multi-threaded runtime (2-8 workers) in real time while another OS thread keeps taking the "
+               "pool's mutex (snapshot hook): 10-60 requests to two origins start within 12 ms, a third of them dropped by the caller "
+               "after 0-5 ms, every connection attempt terminates by itself after 0-3 ms (ok / ALPN h2 / connect failure / handshake "
+               "failure), responses arrive and connections become ready or are closed by the peer after 0-3 ms; not deterministic, so "
+               "judged by the specification only: every request not dropped resolves within 10 s, a fresh probe per origin and protocol "
+               "resolves afterwards, no non-shareable connection carries two requests at once, no request runs on another origin's "
+               "connection, no idle list seen by the snapshot thread exceeds the limit")
+
+CONN_STREAM = {"name": "conn", "quick": 600, "thorough": 30000, "head": 1, "unit": 1, "batch": 20000,
+               "nontrivial": lambda r: "send" in r["input"].split() and any(o[1] == "P" for o in r["obs"].split()),
+               "distribution": lambda rs: {"walks": len(rs), "steps": sum(len(r["obs"].split()) for r in rs),
+                                           "observed_busy": sum(o[1] == "P" for r in rs for o in r["obs"].split()),
+                                           "observed_ready": sum(o[1] == "R" for r in rs for o in r["obs"].split()),
+                                           "observed_closed": sum(o[1] == "E" for r in rs for o in r["obs"].split())}}
+CONN_RULE = (" | conn: the leaf contract on hyperdriver's own HttpConnection (HTTP/1.1 via Protocol::connect over a duplex, real hyper): "
+             "random walks of send / peer sends head+part of the body / peer sends the rest / poll the response / read the body / drop the "
+             "response unread / peer closes; after every step is_open(), poll_ready() and can_share() are read at the same instant and must "
+             "satisfy is_open = (poll_ready is Ready(Ok)), can_share = false - the model's isOpenC with lax = false")
+
+def pool_prop(mod, prefixes, theorems, timed=False, mt=False, leaf=False):
     return {"props_module": mod, "class_prefix": prefixes, "theorems": theorems,
-            "streams": [POOL_STREAM] + ([POOLT_STREAM] if timed else []),
-            "rule": POOL_RULE, "assumes": POOL_ASSUMES}
+            "streams": [POOL_STREAM] + ([POOLT_STREAM] if timed else []) + ([POOLMT_STREAM] if mt else []) + ([CONN_STREAM] if leaf else []),
+            "rule": POOL_RULE + (POOLMT_RULE if mt else "") + (CONN_RULE if leaf else ""), "assumes": POOL_ASSUMES}
 
 def srv_nontrivial(r):
     ops = [o.strip() for o in r["input"].split(";")[1:]]
@@ -461,25 +495,26 @@ PROPS = {
     "C02": pool_prop("HdModel.Props.C02", ["C02/"], ["Hd.Pool.C02_one_holder", "Hd.Pool.C02_held_out_of_pool", "Hd.Pool.C02_pooled_once",
         "Hd.Pool.C02_available_means_ready", "Hd.Pool.C02_busy_not_available", "Hd.Pool.C02_handout_ready",
         "Hd.Pool.step_lininv", "Hd.Pool.run_lininv", "Hd.Pool.step_ready", "Hd.Pool.run_ready", "Hd.Pool.C02_single_delivery", "Hd.Pool.C02_delivered_not_idle",
-        "Hd.Pool.C02_handback_only_when_ready", "Hd.Pool.C02_pop_not_busy", "Hd.Pool.C02_exec_marks_busy"], timed=True),
+        "Hd.Pool.C02_handback_only_when_ready", "Hd.Pool.C02_pop_not_busy", "Hd.Pool.C02_exec_marks_busy", "Hd.Pool.C02_open_means_ready"], timed=True, mt=True, leaf=True),
     "C03": pool_prop("HdModel.Props.C03", ["C03/"], ["Hd.Pool.C03_waiter_only_while_attempt_in_flight", "Hd.Pool.C03_waiter_poll",
         "Hd.Pool.step_waiters", "Hd.Pool.run_waiters", "Hd.Pool.C03_cancel_releases", "Hd.Pool.C03_owner_drop_cancels",
         "Hd.Pool.C03_released_waiter_resolves", "Hd.Pool.C03_released_dialer_continues", "Hd.Pool.C03_resolves_when_attempt_done",
         "Hd.Pool.C03_marker_has_running_owner", "Hd.Pool.C03_waiter_waits_for_running_attempt", "Hd.Pool.C03_only_owner_cancels",
         "Hd.Pool.C03_waiter_channel_usable", "Hd.Pool.C03_pending_waiter_waits_for_running_attempt", "Hd.Pool.step_waitChan", "Hd.Pool.run_waitChan",
-        "Hd.Pool.step_minv", "Hd.Pool.run_minv"]),
+        "Hd.Pool.step_minv", "Hd.Pool.run_minv"], mt=True),
     "C04": pool_prop("HdModel.Props.C04", ["C04/"], ["Hd.Pool.C04_reuse_issue", "Hd.Pool.C04_reuse_poll", "Hd.Pool.C04_share_stays_pooled",
         "Hd.Pool.C04_dedup_issue", "Hd.Pool.C04_dedup_poll", "Hd.Pool.C04_marker_owner", "Hd.Pool.issue_found", "Hd.Pool.issue_missing",
-        "Hd.Pool.C04_one_attempt_per_origin", "Hd.Pool.C04_attempt_ids_distinct", "Hd.Pool.step_minv", "Hd.Pool.run_minv"]),
+        "Hd.Pool.C04_one_attempt_per_origin", "Hd.Pool.C04_attempt_ids_distinct", "Hd.Pool.step_minv", "Hd.Pool.run_minv",
+        "Hd.Pool.C04_released_connection_is_kept", "Hd.Pool.C04_cancel_returns_unused", "Hd.Pool.C04_only_polls_dial", "Hd.Pool.dropCheckout_dials"], leaf=True),
     "C05": pool_prop("HdModel.Props.C05", ["C05/"], ["Hd.Pool.C05_pop_spec", "Hd.Pool.C05_expired_head", "Hd.Pool.C05_no_timeout_never_expires",
         "Hd.Pool.C05_pop_suffix", "Hd.Pool.C05_issue_fresh"], timed=True),
     "C06": pool_prop("HdModel.Props.C06", ["C06/"], ["Hd.Pool.C06_request_gets_own_origin", "Hd.Pool.C06_held_same_origin",
         "Hd.Pool.C06_idle_same_origin", "Hd.Pool.step_originInv", "Hd.Pool.run_originInv", "Hd.Pool.step_coSame",
-        "Hd.Pool.C06_tokenOf", "Hd.Pool.C06_tokens_distinct", "Hd.Pool.C06_new_conn_origin", "Hd.Pool.keysOk_init"]),
+        "Hd.Pool.C06_tokenOf", "Hd.Pool.C06_tokens_distinct", "Hd.Pool.C06_new_conn_origin", "Hd.Pool.keysOk_init"], mt=True),
     "C14": pool_prop("HdModel.Props.C14", ["C14/"], ["Hd.Pool.C14_preempt", "Hd.Pool.pushLoop_first_live", "Hd.Pool.C14_keeps_listening",
         "Hd.Pool.C14_continue", "Hd.Pool.C14_discard", "Hd.Pool.C14_listener_is_queued", "Hd.Pool.C14_release_serves_a_listener",
         "Hd.Pool.pushLoop_delivers", "Hd.Pool.step_queued", "Hd.Pool.run_queued"]),
-    "C15": pool_prop("HdModel.Props.C15", ["C15/"], ["Hd.Pool.C15_idle_bound", "Hd.Pool.step_idleBound", "Hd.Pool.push_idleBound"], timed=True),
+    "C15": pool_prop("HdModel.Props.C15", ["C15/"], ["Hd.Pool.C15_idle_bound", "Hd.Pool.step_idleBound", "Hd.Pool.push_idleBound"], timed=True, mt=True),
     "C18": {
         "props_module": "HdModel.Props.C18",
         "class_prefix": ["C18/", "C08/bytes-altered"],
@@ -511,7 +546,9 @@ PROPS = {
              "nontrivial": e2e_nontrivial, "distribution": e2e_dist},
         ],
         "rule": "scenarios of 2-10 concurrent requests through the real Client service (Client::builder, pool on/off, custom streaming "
-                "request body type) over in-memory duplex connections with buffer 8 B - 64 KiB (TLS: 64 B and up) to four real "
+                "request body type) over in-memory duplex connections with buffer 8 B - 64 KiB (TLS: 64 B and up) - one scenario in twelve instead over real "
+                "TCP sockets on 127.0.0.1 through hyperdriver's own TcpTransport (getaddrinfo resolver, happy-eyeballs connect, TcpStream) behind a "
+                "wrapper that maps origins to the servers' ephemeral ports, in real time with all times divided by ten - to four real "
                 "hyperdriver Servers (auto HTTP/1+HTTP/2; 1 in 4 scenarios behind TLS with server ALPN h2+http/1.1, http/1.1 only or h2 "
                 "only) reached through a transport that routes by scheme, host and effective port, each server stamping its identity on "
                 "the response, virtual time: per request a unique id in path, header and body pattern, HTTP/1.1 or HTTP/2, one of six "
@@ -524,12 +561,12 @@ PROPS = {
                 "0-100 ms, response status from a 7-entry table, response headers, response body 0-70 KB streamed in chunks, start time "
                 "in 1-3 rounds 500 ms apart (later rounds find pooled connections), 1 in 5 requests dropped by the caller 0-120 ms after "
                 "it starts. The handler checks id/method/path/query/headers/origin/body against each other; the client checks status, "
-                "id, origin echo, header, request-body digest echo and the complete response body. non-trivial = at least 3 requests",
+                "id, origin echo, header, request-body digest echo and the complete response body. 1 in 12 HTTP/1.x requests is versioned HTTP/1.0. non-trivial = at least 3 requests",
         "assumes": ["hyper: HTTP/1 and HTTP/2 framing, one exchange at a time per HTTP/1 connection, stream identifiers on HTTP/2 "
                     "(the model's connection rules); GET/HEAD bodies are only sent with a declared length",
                     "the model is message-level: byte-level integrity of streams is C08/C18, header rewriting C13",
                     "eligibility of a pooled HTTP/1 connection (not coupled to another request) is the pool's guarantee, C02",
-                    "real sockets are not in the e2e stream (kernel acceptors: C09 srvk; kernel pipes: C18)"],
+                    "real sockets: loopback TCP only, in one scenario of twelve (further kernel acceptors: C09 srvk; kernel pipes: C18)"],
     },
     "C12": {
         "props_module": "HdModel.Props.C12",
